@@ -119,5 +119,25 @@ Fixpoint continuing_flat_blockb (ic : bool) (b : list stmt) {struct b} : bool :=
 Fixpoint continuing_flat_casesb (ic : bool) (l : list (switch_value * list stmt * bool)) {struct l} : bool :=
   match l with [] => true | (_, b, _) :: l' => continuing_flat_blockb ic b && continuing_flat_casesb ic l' end.
 
+(* H3 (only for the suite-safe repair): no discard inside a continuing block, at any depth *)
+Fixpoint no_discard_in_contb (ic : bool) (s : stmt) {struct s} : bool :=
+  let blk := fix blk (ic : bool) (b : list stmt) {struct b} : bool :=
+      match b with [] => true | x :: b' => no_discard_in_contb ic x && blk ic b' end in
+  match s with
+  | SBlock b => blk ic b
+  | SIf _ a r => blk ic a && blk ic r
+  | SSwitch _ cases =>
+    (fix cs (l : list (switch_value * list stmt * bool)) {struct l} : bool :=
+       match l with [] => true | (_, b, _) :: l' => blk ic b && cs l' end) cases
+  | SLoop b c _ => blk ic b && blk true c
+  | SKill => negb ic
+  | _ => true
+  end.
+Fixpoint no_discard_in_cont_blockb (ic : bool) (b : list stmt) {struct b} : bool :=
+  match b with [] => true | x :: b' => no_discard_in_contb ic x && no_discard_in_cont_blockb ic b' end.
+Fixpoint no_discard_in_cont_casesb (ic : bool) (l : list (switch_value * list stmt * bool)) {struct l} : bool :=
+  match l with [] => true | (_, b, _) :: l' => no_discard_in_cont_blockb ic b && no_discard_in_cont_casesb ic l' end.
+Definition no_discard_in_continuing (body : list stmt) : Prop := no_discard_in_cont_blockb false body = true.
+
 Definition breaks_in_loop (body : list stmt) : Prop := breaks_in_loop_blockb false body = true.
 Definition continuing_flat (body : list stmt) : Prop := continuing_flat_blockb false body = true.
